@@ -23,8 +23,9 @@ for p in sorted(glob.glob(os.path.join(ROOT, "props", "C*.json"))):
 na_path = os.path.join(ROOT, "props", "not_applicable.json")
 na_cfg = json.load(open(na_path)) if os.path.exists(na_path) else {}
 na = [{"property_id": i, "reason": na_cfg.get(i, "check not built yet in this round; planned per DESIGN.md section 9 (no technique limitation)")} for i in ids if i not in claimed]
-hooks_path = os.path.join(ROOT, "props", "hooks.json")
-hooks = json.load(open(hooks_path)) if os.path.exists(hooks_path) else {"source_commits": []}
+import subprocess
+_log = subprocess.run(["git", "-C", "/repo", "log", "--reverse", "--format=%H %s"], stdout=subprocess.PIPE, text=True).stdout.splitlines()
+hooks = {"source_commits": [l.split(" ", 1)[0] for l in _log if "verif hook" in l]}
 man = {
     "version": 1,
     "setup_cmd": "./setup.sh",
